@@ -7,5 +7,6 @@ func init() {
 	gfSpecs = append(gfSpecs,
 		gfSpec{Pkg: "./pkg/core/dao", Func: "isTraceableBlock", Lean: "isTraceableBlock"},
 		gfSpec{Pkg: "./pkg/core", Recv: "Blockchain", Func: "verifyAndPoolOffChainTx", Lean: "verifyAndPoolOffChainTx"},
+		gfSpec{Pkg: "./pkg/core/mempool", Func: "checkBalance", Lean: "mempoolCheckBalance"},
 	)
 }
